@@ -20,78 +20,100 @@ class TM:
         self.shape = shape
 
 
-def _graph(H, kinds):
-    """x -> {branch_i} -> combiner -> head -> out ; kinds[i] in 'layer' | 'seq' | 'identity'"""
+def _branch(H, spec, mods, blk, i, k, src, suffix, cin, make):
+    """appends the nodes of branch i (kind k) of block `blk` fed by node `src`; returns (output node name, [sub-module names])"""
+    base = '%s.sn_branches.%d' % (blk, i)
+    tm = {'tensor_meta': TM((1, cin, 2))}
+    if k == 'seq':
+        if make:
+            m0 = nn.Conv1d(cin, cin, 1)
+            H.set_(m0.weight, H.tensor('%s.b%d.w' % (blk, i), (cin, cin, 1)))
+            H.set_(m0.bias, H.tensor('%s.b%d.b' % (blk, i), (cin,)))
+            mods[base + '.0'], mods[base + '.1'] = m0, nn.ReLU()
+        spec.append((base + '.0' + suffix, 'call_module', [src], tm))
+        spec.append((base + '.1' + suffix, 'call_module', [base + '.0' + suffix], tm))
+        return base + '.1' + suffix, [base + '.0', base + '.1']
+    if make:
+        if k == 'layer':
+            m = nn.Conv1d(cin, cin, 1)
+            H.set_(m.weight, H.tensor('%s.b%d.w' % (blk, i), (cin, cin, 1)))
+            H.set_(m.bias, H.tensor('%s.b%d.b' % (blk, i), (cin,)))
+        else:
+            m = nn.Identity()
+        mods[base] = m
+    spec.append((base + suffix, 'call_module', [src], tm))
+    return base + suffix, [base]
+
+
+def _graph(H, blocks, twice):
+    """x -> block0 [-> block0 again] -> block1 ... -> head -> out ; each block = list of branch kinds 'layer' | 'seq' | 'identity'.
+    Node and sub-module names are the ones a traced SuperNetModule has."""
     cin = 2
     mods = {}
     spec = [('x', 'placeholder', [], {'tensor_meta': TM((1, cin, 2))})]
-    outs = []
-    branch_mods = []
-    for i, k in enumerate(kinds):
-        base = 'blk.sn_branches.%d' % i
-        if k == 'layer':
-            m = nn.Conv1d(cin, cin, 1)
-            H.set_(m.weight, H.tensor('b%d.w' % i, (cin, cin, 1)))
-            H.set_(m.bias, H.tensor('b%d.b' % i, (cin,)))
-            mods[base] = m
-            spec.append((base, 'call_module', ['x'], {'tensor_meta': TM((1, cin, 2))}))
-            outs.append(base)
-            branch_mods.append([base])
-        elif k == 'seq':
-            m0, m1 = nn.Conv1d(cin, cin, 1), nn.ReLU()
-            H.set_(m0.weight, H.tensor('b%d.w' % i, (cin, cin, 1)))
-            H.set_(m0.bias, H.tensor('b%d.b' % i, (cin,)))
-            mods[base + '.0'], mods[base + '.1'] = m0, m1
-            spec.append((base + '.0', 'call_module', ['x'], {'tensor_meta': TM((1, cin, 2))}))
-            spec.append((base + '.1', 'call_module', [base + '.0'], {'tensor_meta': TM((1, cin, 2))}))
-            outs.append(base + '.1')
-            branch_mods.append([base + '.0', base + '.1'])
-        else:
-            mods[base] = nn.Identity()
-            spec.append((base, 'call_module', ['x'], {'tensor_meta': TM((1, cin, 2))}))
-            outs.append(base)
-            branch_mods.append([base])
-    comb = SuperNetCombiner(len(kinds), False, True)
-    mods['blk.sn_combiner'] = comb
-    spec.append(('blk.sn_combiner', 'call_module', outs, {'tensor_meta': TM((1, cin, 2))}))
+    combs, branch_mods, list_args = [], [], []
+    src = 'x'
+    for b, kinds in enumerate(blocks):
+        blk = 'blk%d' % b
+        comb = SuperNetCombiner(len(kinds), False, True)
+        mods[blk + '.sn_combiner'] = comb
+        combs.append(comb)
+        for suffix in (['', '@2'] if (twice and b == 0) else ['']):
+            outs, bm = [], []
+            for i, k in enumerate(kinds):
+                o, names = _branch(H, spec, mods, blk, i, k, src, suffix, cin, suffix == '')
+                outs.append(o)
+                bm.append(names)
+            spec.append((blk + '.sn_combiner' + suffix, 'call_module', outs, {'tensor_meta': TM((1, cin, 2))}))
+            list_args.append(blk + '.sn_combiner' + suffix)
+            src = blk + '.sn_combiner' + suffix
+        branch_mods.append(bm)
     head = nn.Conv1d(cin, 1, 1)
     H.set_(head.weight, H.tensor('head.w', (1, cin, 1)))
     H.set_(head.bias, H.tensor('head.b', (1,)))
     mods['head'] = head
-    spec.append(('head', 'call_module', ['blk.sn_combiner'], {'tensor_meta': TM((1, 1, 2))}))
+    spec.append(('head', 'call_module', [src], {'tensor_meta': TM((1, 1, 2))}))
     spec.append(('out', 'output', ['head'], {'tensor_meta': TM((1, 1, 2))}))
-    gm, nodes = H.fx_graph(spec, mods, ['blk.sn_combiner'])
-    return gm, nodes, comb, head, branch_mods, mods
+    gm, nodes = H.fx_graph(spec, mods, list_args)
+    return gm, nodes, combs, head, branch_mods, mods
 
 
-def h_export(H, kinds):
-    gm, nodes, comb, head, branch_mods, mods = _graph(H, kinds)
-    n = len(kinds)
-    alpha = H.tensor('alpha', (n,))
-    al = H.elements(alpha)
-    for i in range(n):
-        for j in range(i):
-            H.assume(H.ne(al[i], al[j]))
-    H.set_(comb.alpha, alpha)
+def h_export(H, blocks, twice=False):
+    gm, nodes, combs, head, branch_mods, mods = _graph(H, blocks, twice)
+    als = []
+    for b, comb in enumerate(combs):
+        n = len(blocks[b])
+        alpha = H.tensor('alpha%d' % b, (n,))
+        al = H.elements(alpha)
+        for i in range(n):
+            for j in range(i):
+                H.assume(H.ne(al[i], al[j]))
+        H.set_(comb.alpha, alpha)
+        als.append(al)
     for m in mods.values():
         m.eval()
     x = H.tensor('x', (1, 2, 2))
+    # case split on the winner of every block first (one path per combination of winners)
+    kept = ['head']
+    for b, al in enumerate(als):
+        for i in range(len(al)):
+            is_max = H.and_(*[H.ge(al[i], a) for a in al])
+            if H.branch(is_max):
+                kept = kept + branch_mods[b][i]
     y_hard = H.fx_run(gm, x)                    # SuperNet with hard (one-hot) selection
     head_w = H.elements(head.weight)
     link_combiners_to_branches(gm)
-    for i in range(n):
-        H.ensure('link:combiner-knows-the-layers-of-each-branch', [e[0] for e in comb._unique_leaf_modules[i]] == branch_mods[i])
+    for b, comb in enumerate(combs):
+        for i in range(len(blocks[b])):
+            H.ensure('link:combiner-knows-the-layers-of-each-branch', [e[0] for e in comb._unique_leaf_modules[i]] == branch_mods[b][i])
     export_graph(gm)
     names = H.fx_module_names(gm)
     y_exp = H.fx_run(gm, x)
     H.observe('y_hard', y_hard)
     H.observe('y_exp', y_exp)
     H.ensure('export:same-function-as-hard-selection', H.eq(y_exp, y_hard))
-    for i in range(n):
-        is_max = H.and_(*[H.ge(al[i], a) for a in al])
-        if H.branch(is_max):
-            H.ensure('export:exactly-the-arg-max-branch-and-the-fixed-layers-remain', names == sorted(branch_mods[i] + ['head']))
-    H.ensure('export:combiner-is-gone', 'blk.sn_combiner' not in names)
+    H.ensure('export:exactly-the-arg-max-branch-and-the-fixed-layers-remain', names == sorted(kept))
+    H.ensure('export:combiner-is-gone', not any('sn_combiner' in nm for nm in names))
     H.ensure('export:layers-outside-choice-blocks-untouched',
              H.same_object(dict(H.fx_modules(gm))['head'], head) and H.eq(H.elements(head.weight), head_w))
 
@@ -111,12 +133,19 @@ PROPERTY = {
     ),
 }
 
+# a block with 12 alternatives: two-digit branch indices (`sn_branches.1` is a prefix of `sn_branches.10`, `.11`)
+_MANY = ['layer', 'identity', 'seq', 'layer', 'identity', 'layer', 'layer', 'identity', 'layer', 'seq', 'layer', 'identity']
+
 HARNESSES = [
     dict(name='export-graph', fn='h_export', property=['C03'],
          functions=['plinio/methods/supernet/graph.py::export_graph', 'plinio/methods/supernet/graph.py::link_combiners_to_branches',
                     'plinio/methods/supernet/nn/combiner.py::SuperNetCombiner.best_layer_index', 'plinio/methods/supernet/nn/combiner.py::SuperNetCombiner.forward',
                     'plinio/graph/inspection.py::is_layer', 'plinio/graph/inspection.py::layer_type'],
-         quick=[dict(kinds=k) for k in (['layer', 'layer'], ['layer', 'seq'], ['seq', 'identity'], ['layer', 'seq', 'identity'])],
-         thorough=[dict(kinds=k) for k in (['layer', 'layer'], ['layer', 'seq'], ['seq', 'layer'], ['seq', 'identity'], ['identity', 'layer'], ['layer', 'seq', 'identity'],
-                                           ['seq', 'seq', 'layer'], ['layer', 'layer', 'layer'])], timeout=60),
+         quick=[dict(blocks=[k]) for k in (['layer', 'layer'], ['layer', 'seq'], ['seq', 'identity'], ['layer', 'seq', 'identity'], _MANY)] +
+               [dict(blocks=[['layer', 'seq', 'identity']], twice=True), dict(blocks=[['layer', 'identity'], ['seq', 'layer']])],
+         thorough=[dict(blocks=[k]) for k in (['layer', 'layer'], ['layer', 'seq'], ['seq', 'layer'], ['seq', 'identity'], ['identity', 'layer'], ['layer', 'seq', 'identity'],
+                                              ['seq', 'seq', 'layer'], ['layer', 'layer', 'layer'], _MANY)] +
+                  [dict(blocks=[k], twice=True) for k in (['layer', 'seq', 'identity'], ['seq', 'layer'], _MANY)] +
+                  [dict(blocks=[a, b]) for a in (['layer', 'identity'], ['seq', 'layer', 'identity']) for b in (['seq', 'layer'], ['identity', 'seq'])] +
+                  [dict(blocks=[['layer', 'identity'], ['seq', 'layer'], ['identity', 'layer']], twice=True)], timeout=60),
 ]
